@@ -476,7 +476,7 @@ fn opt_allow(rl: &mut Option<RateLimiter>, now: Instant) -> (res: bool)
                      Rw("R2", r"let state = state\.write\(\)\.unwrap\(\);", "let state = state; let idx = *idx;")],
            ensures=[("own-untouched", "!(old(self).kind is Multi) ==> *final(self) == *old(self)"),
                     ("C06-C18-disconnect", "final(self).same_kind(*old(self)) && (old(self).hidden() ==> final(self).ops() == old(self).ops())", ["C06", "C18"])]),
-        Fn("src/state.rs", "BarState", "println", requires=K.BAR_REQ, also=["C01", "C03"],
+        Fn("src/state.rs", "BarState", "println", requires=K.BAR_REQ, also=["C01", "C02", "C03"],
            rewrites=[Rw("R5", r"msg\.lines\(\)\.map\(\|l\| LineType::Text\(Into::into\(l\)\)\)\.collect\(\)", "text_lines(msg)"),
                      Rw("R16", r"draw_state\.lines\.push", "draw_state.state.lines.push"),
                      Rw("R5", r"draw_state\.lines\.extend\(lines\)", "vec_extend(&mut draw_state.state.lines, lines)"),
